@@ -109,6 +109,47 @@ TEXT.update({
  },
 })
 
+TEXT.update({
+ "C04": {
+  "engine": "K",
+  "technique": "bounded model checking (Kani/CBMC) of DataSetWriter + StatefulEncoder + the Explicit VR LE encoder into a counting writer, byte-exact against a reference PS3.5 encoder written in the harness",
+  "level": "For fixed token shapes (sequence > item > US element; encapsulated pixel data followed by such a sequence) with symbolic tag, value bytes and defined/undefined input lengths, and both explicit-length strategies, "
+           "the solver shows the emitted bytes equal the reference encoding: delimiters exactly for undefined lengths, lengths as recorded otherwise.",
+  "note": "writer kernels only: other VRs and value padding, the other two codecs, whole files and reported byte counts are outside; dictionary lookup and tracing stubbed",
+ },
+ "C05": {
+  "engine": "K",
+  "technique": "bounded model checking (Kani/CBMC): Kani's panic / overflow / bounds checks and unwinding assertions on parsers and decoders fed every byte string of the listed sizes",
+  "level": "No panic and bounded loops for the DICOM date, time and date-time parsers, the textual tag parser, the explicit header decoders and PDU prefix reading, for ALL inputs of the stated lengths.",
+  "note": "file / collector / JSON text / JPEG / deflate / RLE / dump entry points, range parsers, data set readers on arbitrary streams and text-VR value readers are outside (third-party code or measured beyond budget)",
+ },
+ "C12": {
+  "engine": "M",
+  "technique": "typed symbolic evaluation with path merging of the MIR of <DicomTime as AsRange>::earliest/latest and the accessors, z3 bit-vectors; chrono's constructor as a documented contract",
+  "level": "For every DicomTime its constructors admit (4 precisions, second 0-60, fraction of 1-6 digits) the solver shows earliest()/latest() are Ok and equal the component-wise instant; leap second treated as its own query.",
+  "note": "only the time range clause: text round trips, dates, date-times, zones and range text are outside; NaiveTime::from_hms_micro_opt is a contract taken from chrono's documentation, models are replayed natively",
+ },
+ "C16": {
+  "engine": "M",
+  "technique": "z3 over the MIR of the TransferSyntax capability predicates on a symbolic codec shape; MIR of the registry lookup over keys dumped from the real registry with symbolic padding bytes",
+  "level": "Seven capability equivalences decided for every codec shape; for the registry as built (default and native+deflate features): unique UIDs, implicit/big-endian exactly for the two standard UIDs, decoder+encoder when decodable, "
+           "queries agreeing with codecs, and lookup with 0-2 trailing space/NUL bytes returning the same entry.",
+  "note": "registry contents come from the real registry through the public API (native oracle); feature sets needing system libraries are outside",
+ },
+ "C21": {
+  "engine": "K",
+  "technique": "bounded model checking (Kani/CBMC) of the default method PixelDataObject::frame_pixel_data on harness objects with symbolic geometry and pixel bytes",
+  "level": "Frame k is exactly the bytes of frame k for native 8/16-bit data (rows, columns 1-4 symbolic), for 1-bit data with ANY pixel count (rows, columns 1-17: the bytes holding bits [k*n,(k+1)*n)), and for encapsulated data with an offset table.",
+  "note": "decode_pixel_data / decode_pixel_data_frame (1-bit expansion) are not a callable unit without the registry and file object: outside, and read as defective for pixel counts not divisible by 8 (DESIGN §2 C21)",
+ },
+ "C29": {
+  "engine": "M",
+  "technique": "typed symbolic evaluation of the MIR of create_a_associate_req (unknown callees havocked) and of its identifier closure; z3 query over the number of contexts and two positions; replay over a loopback socket",
+  "level": "For every number of proposed contexts that the requestor's own guards let through, identifiers are odd and pairwise distinct.",
+  "note": "only the identifier clause of C29; havoc mode over-approximates, counterexamples are confirmed against a real requestor before being reported",
+ },
+})
+
 _NOTYET = "check not built yet in this session (design in DESIGN.md §3); not claimed until its harness has produced a verdict"
 NOT_APPLICABLE = {p: _NOTYET for p in ["C%02d" % i for i in range(1, 37)]}
 NOT_APPLICABLE.update({
